@@ -38,7 +38,7 @@ def nilDstPanics (acfg : AssignCfg) (dk : DynKind) (s : Src) (noBuf : Bool) : Bo
 /-- `inspector.AssignBuf(&v | v, value, buf)` on a leaf node holding `old` (pointer level as the node says).
 `none` = panic. -/
 def assignLeaf (cfg : GenCfg) (n : Node) (old : Val) (s : Src) (noBuf : Bool) : Option Val :=
-  let acfg : AssignCfg := { strAppendsOld := cfg.strAppendsOld }
+  let acfg : AssignCfg := { strAppendsOld := cfg.strAppendsOld, nilSrcPanics := cfg.assignNilSrcPanics }
   let dk := leafKind n
   if n.ptr then
     match old with
@@ -220,7 +220,7 @@ def setM (cfg : GenCfg) (n : Node) (f : Form) (v : Val) (p : List Seg) (src : Sr
   match p with
   | [] => .ok v
   | s :: _ =>
-    match rootOf f with
+    match rootOfC cfg f with
     | .early => .ok v
     | .panic => .panic
     | .nilX =>
